@@ -42,6 +42,13 @@ fn build_files(sb: &Sandbox) {
     std::fs::write(sb.top.join("l1/l2/a"), format!("{CANARY} l2/a\n")).unwrap();
     std::fs::write(sb.top.join("l1/a"), format!("{CANARY} l1/a\n")).unwrap();
     std::fs::write(sb.elsewhere.join("a"), format!("{CANARY} elsewhere/a\n")).unwrap();
+    // directories outside the root that LOOK like a checkpoint (parsable metadata + a stored
+    // file): an id that is used as a path finds them
+    for dir in [sb.outer.clone(), sb.outer.join("d"), sb.top.join("l1/l2"), sb.elsewhere.clone()] {
+        std::fs::create_dir_all(dir.join("files")).unwrap();
+        std::fs::write(dir.join("checkpoint.json"), r#"{"id":"decoy","session_id":"sess","label":"decoy","created_at_ms":1,"files":[{"path":"stolen.txt","exists":true,"sha256":null}]}"#).unwrap();
+        std::fs::write(dir.join("files/stolen.txt"), format!("{CANARY} decoy checkpoint\n")).unwrap();
+    }
     std::fs::write(sb.root.join("a"), "root-a\n").unwrap();
     std::fs::write(sb.root.join("d/a"), "root-d-a\n").unwrap();
     std::fs::write(sb.root.join("d/b"), "root-d-b\n").unwrap();
@@ -449,6 +456,9 @@ fn worker(opts: Opts) -> i32 {
             if !d_out.is_empty() || !d_in_all.is_empty() {
                 // restore the pristine sandbox for the next case
                 build_files(&ctx.sb);
+                // build_files re-creates the whole tree: the directory this process stands in is a new
+                // one now (the old inode is gone and relative lookups in it fail)
+                std::env::set_current_dir(if ctx.cwd_mode == "root" { &ctx.sb.root } else { &ctx.sb.elsewhere }).expect("chdir");
                 let _ = std::fs::remove_dir_all(ctx.sb.root.join(".rip"));
                 let _ = rip_workspace::Workspace::new(&ctx.sb.root);
                 let (o, i) = observe(&ctx.sb);
@@ -535,6 +545,12 @@ fn replay(report: &Report, case: &Value) -> i32 {
     report.eval(Some(&"replay"));
     if !tree_diff(&o0, &o1).is_empty() {
         report.violation(&format!("C13:outside_modified:{arg:?}"), case.clone(), "outside tree changed");
+    }
+    if outcome.output.contains(CANARY) {
+        report.violation(&format!("C13:outside_read:output:{arg:?}"), case.clone(), "canary from outside the root appears in the tool output");
+    }
+    if let Some(f) = contains_canary(&i1, "") {
+        report.violation(&format!("C13:outside_read:copied_into_root:{arg:?}"), case.clone(), &format!("canary from outside the root was copied to {f} under the root"));
     }
     if must_refuse(&ctx, arg, &p) && (outcome.success || !tree_diff(&i0, &i1).is_empty()) {
         report.violation(&format!("C13:not_refused_or_side_effect:{arg:?}"), case.clone(), "refusal clause violated");
